@@ -145,7 +145,7 @@ def run(ctx, prop):
         for n in ns:
             if n["kind"] == "grouped":
                 n = dict(n, kids=[])
-            units.append(dict(m=dict(hdr=line["m"]["hdr"], avps=[n]), dict=line["dict"], src="shrink", bytes=[]))
+            units.append(dict(m=dict(hdr=line["m"]["hdr"], avps=[n]), dict=line["dict"], src="shrink", bytes=[], style=line.get("style", "")))
             owner.append((i, rs))
     attributed = {}
     if units:
@@ -171,14 +171,14 @@ def run(ctx, prop):
     for line, rs, n in direct:
         first = [r for r in ORDER if r in rs][0]
         sig = "%s:%s:%s" % (line["ev"], first, leaf_class(n) if n else "noavp")
-        v.report(sig, dict(m=line["m"], dict=line["dict"], src=line["src"], bytes=line["bytes"] if line["ev"] == "wire" else []),
+        v.report(sig, dict(m=line["m"], dict=line["dict"], src=line["src"], bytes=line["bytes"] if line["ev"] == "wire" else [], style=line.get("style", "")),
                  detail="reasons=%s rerr=%s berr=%s" % (rs, line.get("rerr"), line.get("berr")))
     for i, reasons in sorted(bad.items()):
         line = lines[i]
         rs = relevant(line, reasons)
         if not rs or len(list(nodes(line["m"]["avps"]))) <= 1:
             continue
-        case = dict(m=line["m"], dict=line["dict"], src=line["src"], bytes=line["bytes"] if line["ev"] == "wire" else [])
+        case = dict(m=line["m"], dict=line["dict"], src=line["src"], bytes=line["bytes"] if line["ev"] == "wire" else [], style=line.get("style", ""))
         if i in attributed:
             for n, ur in attributed[i]:
                 first = [r for r in ORDER if r in ur][0]
